@@ -333,6 +333,12 @@ def run_stubbed(req, vi, sd):
             Rs = Rendering("pat", s)           # patterns keep their own frame; the structure may be rotated against it
             sp = render(req["sp"], Rs)
             rp = render(req["rp"], Rs)
+            # two patterns cut from one parent structure (or built from the same lists) share type-level lists as objects,
+            # not only by value
+            if (sd + vi) % 2 == 0 and len(rp) > 0:
+                for t in ("atom_type_elements", "atom_type_masses", "atom_type_labels", "pair_coeffs"):
+                    if list(getattr(sp, t)) == list(getattr(rp, t)):
+                        setattr(rp, t, getattr(sp, t))
     except Exception as e:                     # consistent inputs must be constructible
         ev["exc"] = "constructing-inputs:" + type(e).__name__
         ev["exc_msg"] = str(e)[:200]
